@@ -1,5 +1,5 @@
 (** C08 — collection-phase protocol of the Arena API, for every debt oracle (any pacing / debt). *)
-From GA Require Import Model.Spec Proofs.Inv Proofs.InvMark Proofs.Phases Proofs.InvOps Proofs.InvMicroOps.
+From GA Require Import Model.Spec Proofs.Inv Proofs.InvMark Proofs.Phases Proofs.InvOps Proofs.InvMicroOps Proofs.Termination Proofs.Protocol.
 Local Open Scope nat_scope.
 
 (** one driver iteration: the only phase moves are Sleep->Mark, Mark->Sweep (only when no gray
@@ -65,6 +65,33 @@ Theorem C08_callbacks_keep_phase :
 Proof. intros w ar k m ar' hs out I CB E. exact (proj1 (proj2 (micro_inv w ar k m ar' hs out I CB E))). Qed.
 Print Assumptions C08_callbacks_keep_phase.
 
-(** PARTIAL: termination of the driver loop within [collection_fuel] (the OutOfFuel outcome never
-    occurs) is not yet proved; the statements above are conditional on the call completing, and the
-    lock-step run checks on every trace that the model never reports OutOfFuel. *)
+(** Termination: every collection call (without an injected trace fault) completes within the
+    model's fuel bound, for every debt oracle: at most the rest of the running cycle plus one whole
+    cycle; each mark_one step lowers #unmarked + |queues| + root flag, each sweep_one step shortens
+    the unswept list. *)
+Theorem C08_terminates :
+  forall dec c ru st c' evs oc, Inv None c -> quiescent c ->
+    do_collection dec c ru st None = (c', evs, oc) -> oc = Done.
+Proof. exact do_collection_terminates. Qed.
+Print Assumptions C08_terminates.
+
+(** so the per-call contracts hold unconditionally in every reachable (quiescent) arena state *)
+Theorem C08_finish_cycle_contract :
+  forall dec c c' evs oc, Inv None c -> quiescent c ->
+    do_collection dec c RunStop FinishCycle None = (c', evs, oc) -> oc = Done /\ ph c' = Sleep.
+Proof. exact finish_cycle_ends_sleeping. Qed.
+Print Assumptions C08_finish_cycle_contract.
+
+Theorem C08_finish_marking_contract :
+  forall dec c c' evs oc, Inv None c -> quiescent c ->
+    do_collection dec c RunStop FullyMarked None = (c', evs, oc) ->
+    oc = Done /\ (ph c <> Sweep -> is_marked c' = true) /\ (ph c = Sweep -> c' = c).
+Proof. exact finish_marking_contract. Qed.
+Print Assumptions C08_finish_marking_contract.
+
+Theorem C08_mark_debt_contract :
+  forall dec c c' evs oc, Inv None c -> quiescent c ->
+    do_collection dec c PayDebt FullyMarked None = (c', evs, oc) ->
+    oc = Done /\ (ph c = Sweep -> c' = c) /\ (ph c' = Sweep -> ph c = Sweep).
+Proof. exact mark_debt_contract. Qed.
+Print Assumptions C08_mark_debt_contract.
